@@ -283,11 +283,11 @@ def stepSubclass (cfg : Cfg) (src dst : Ty) : Step :=
 def stepUnionSubcase (src dst : Ty) : Step :=
   match dst with
   | .union ds =>
-    let dset := ds.map stripTags
     match src with
     | .union ss =>
-      if (ss.map stripTags).all (fun s => Ty.elemOf s dset) then .ok asIsCoercer else .skip
-    | s => if Ty.elemOf s dset then .ok asIsCoercer else .skip
+      if (ss.map stripTags).all (fun s => Ty.elemOf s (ds.map stripTags)) then .ok asIsCoercer
+      else .skip
+    | s => if Ty.elemOf s (ds.map stripTags) then .ok asIsCoercer else .skip
   | _ => .skip
 
 /-! ### the structural providers -/
